@@ -478,6 +478,19 @@ void build(Built& b, const Case& c) {
 		return;
 	}
 	NiShape* shape = b.shape;
+	// 'U': a second texture-coordinate set (NiGeometryData keeps the number of sets in the low six bits of dataFlags
+	// below stream version 34; later streams know one set only)
+	if (attrs.find('U') != std::string::npos && wantU && nif.GetHeader().GetVersion().Stream() < 34) {
+		if (auto gd = shape->GetGeomData()) {
+			if (gd->uvSets.size() == 1) {
+				std::vector<Vector2> second;
+				for (size_t i = 0; i < gd->uvSets[0].size(); ++i)
+					second.emplace_back(1.0f - gd->uvSets[0][i].u, 0.5f + 0.25f * static_cast<float>(i % 3));
+				gd->uvSets.push_back(second);
+				gd->dataFlags = static_cast<uint16_t>((gd->dataFlags & ~0x3F) | 2);
+			}
+		}
+	}
 	if (wantC) {
 		std::vector<Color4> cols;
 		for (size_t i = 0; i < nv; ++i)
